@@ -857,7 +857,43 @@ fn exhaustive(h: usize, ps: usize, progs: &Vec<Vec<Call>>, shard: usize, nshards
 
 // ------------------------------------------------------------------------------------ random cases
 
+/// Recycling shape: a free list at least as long as the number of creations the programs make, every thread creating,
+/// contended schedules. Whatever the interleaving, no creation may need a never-used index.
+fn gen_recycle_case(rng: &mut Rng, id: String, maxthreads: usize, maxcalls: usize) -> Case {
+    let k = rng.range(8, 16) as usize;
+    let mut init: Vec<InitOp> = vec![InitOp::W(Op::CreateIter { atomic: false, n: k })];
+    let keep = rng.below(3) as usize;                     // a few entities stay alive
+    let mut victims: Vec<usize> = (0..k).collect();
+    for _ in 0..keep { let i = rng.below(victims.len() as u64) as usize; victims.remove(i); }
+    for v in &victims { init.push(InitOp::W(Op::DelNow(*v))); }
+    if rng.chance(1, 2) { init.push(InitOp::W(Op::Maintain)); }
+    let n = rng.range(3, maxthreads.max(3) as u64) as usize;
+    let mut budget = victims.len();
+    let mut progs: Vec<Vec<Call>> = vec![Vec::new(); n];
+    let mut steps = 0usize;
+    for round in 0..maxcalls.max(1).min(3) {
+        for t in 0..n {
+            if budget == 0 || (round > 0 && rng.chance(1, 3)) { continue; }
+            if budget >= 2 && rng.chance(1, 6) { progs[t].push(Call::CreateIter(2)); budget -= 2; steps += 12; }
+            else { progs[t].push(Call::Create); budget -= 1; steps += 6; }
+        }
+    }
+    let style = rng.below(3);
+    let len = steps + steps / 2 + 4;
+    let mut sched = Vec::with_capacity(len);
+    let mut cur = 0usize;
+    for i in 0..len {
+        sched.push(match style {
+            0 => i % n,
+            1 => rng.below(n as u64) as usize,
+            _ => { if rng.chance(2, 3) { cur = (cur + 1 + rng.below(n as u64) as usize) % n; } cur }
+        });
+    }
+    Case { id, init, progs, sched }
+}
+
 fn gen_case(rng: &mut Rng, id: String, maxthreads: usize, maxcalls: usize) -> Case {
+    if rng.chance(1, 6) { return gen_recycle_case(rng, id, maxthreads, maxcalls); }
     // initial history
     let mut init: Vec<InitOp> = if rng.chance(1, 3) {
         hist(rng.below(NHIST as u64) as usize)
@@ -1076,6 +1112,19 @@ fn stress(seed: u64, threads: usize, calls: usize, out: &mut String) {
     for e in &created {
         if let Some(o) = seen.insert(e.id(), *e) { fails.push(format!("index shared by {} and {}", show_entity(o), show_entity(*e))); }
     }
+    // C17 (recycling): nothing dies inside the phase, so a never-used index may have been taken only if every lower
+    // index is occupied, now, by an entity alive at the start of the phase or created in it
+    let mut c17: Option<String> = None;
+    {
+        let used0 = init_log.iter().map(|e| e.id() + 1).max().unwrap_or(0);
+        let occ: HashSet<u32> = alive0.iter().map(|e| e.id()).chain(created.iter().map(|e| e.id())).collect();
+        let top_fresh = created.iter().map(|e| e.id()).filter(|i| *i >= used0).max();
+        if let Some(top) = top_fresh {
+            if let Some(free) = (0..top).find(|i| !occ.contains(i)) {
+                c17 = Some(format!("c17:never-used_index_{}_taken_while_index_{}_was_free", top, free));
+            }
+        }
+    }
     // (d/e) after maintain
     let r = catch_unwind(AssertUnwindSafe(|| ex.world.maintain()));
     if r.is_err() { fails.push("maintain panicked".into()); }
@@ -1098,10 +1147,11 @@ fn stress(seed: u64, threads: usize, calls: usize, out: &mut String) {
     }
     let ncreated = created.len();
     writeln!(out, "case s{}-{}-{}", seed, threads, calls).unwrap();
+    let c17 = c17.map(|s| format!(" {}", s)).unwrap_or_default();
     if fails.is_empty() {
-        writeln!(out, "stress seed={} threads={} calls={} created={} requested={} lazy={} => ok", seed, threads, calls, ncreated, requested.len(), total).unwrap();
+        writeln!(out, "stress seed={} threads={} calls={} created={} requested={} lazy={} => ok{}", seed, threads, calls, ncreated, requested.len(), total, c17).unwrap();
     } else {
-        writeln!(out, "stress seed={} threads={} calls={} created={} requested={} lazy={} => fail {}", seed, threads, calls, ncreated, requested.len(), total, fails[0].replace(' ', "_")).unwrap();
+        writeln!(out, "stress seed={} threads={} calls={} created={} requested={} lazy={} => fail {}{}", seed, threads, calls, ncreated, requested.len(), total, fails[0].replace(' ', "_"), c17).unwrap();
     }
 }
 
